@@ -9,7 +9,7 @@ from harness.merge_impl import build_inputs, do_merge, gen_stores, model_files
 from harness.store_check import OP_CLASS, check_histories, load_corpus
 from harness.store_impl import fresh_dir, gen_history, rm_dir, run_impl, short_sequences
 
-RULE = ('(0) ALL sequences of k ops (quick k=4 over 5 ops, thorough k=5 over 7 ops) after create+add+add; (a) store histories as in C07 restricted to identified stores (distinct ids in random order, negative ids, '
+RULE = ('(0) ALL sequences of k ops (quick k=4 over 5 ops, thorough k=5 over 5 ops) after create+add+add; (a) store histories as in C07 restricted to identified stores (distinct ids in random order, negative ids, '
         'lookups immediately after adds, before any sync, in append sessions, after reopening, in in-memory stores before and after save, of ids never '
         'added), get_flight outputs compared with the Lean model and the dictionary specification; (b) merges of 1..5 identified '
         'stores of 1..4 trajectories, every id and two absent ids looked up in the merged store (cache 1/64 MB), compared with '
@@ -78,7 +78,7 @@ def main(ctx):
     if ctx.tier == 'quick':
         ex = short_sequences('ALOSP', 4, True) + short_sequences('ALOVP', 4, True, mem=True)
     else:
-        ex = short_sequences('ALONSPR', 5, True) + short_sequences('ALOSVP', 5, True, mem=True)
+        ex = short_sequences('ALOSP', 5, True) + short_sequences('ALOVP', 5, True, mem=True)
     ctx.extra['exhaustive_short_sequences'] = len(ex)
     hs += ex
     check_histories(ctx, hs, OP_CLASS['C08'], 'get_flight_refines_dict', nontrivial, tag=' (C08)')
